@@ -45,7 +45,7 @@ def h02_ladder(S):
         S.check("no-result-when-disabled", o.result is None)
 
 
-def h02_worker(S, eager_extras=False):
+def h02_worker(S, eager_extras=False, backend="mem", tasks_limit=2):
     """Two messages through a real Worker.run(): message 1 misbehaves in every supported way."""
     import repid.data._parameters as P
     from repid import Job, MessageDependency, Router, Worker
@@ -75,7 +75,7 @@ def h02_worker(S, eager_extras=False):
         raise RuntimeError("provider failed")
 
     async def main(loop):
-        w = World(results=True)
+        w = World(results=True, backend=backend)
         await w.open(record=True)
         r = Router()
         policy = lambda retry_number=1: real_timedelta(hours=1)  # noqa: E731
@@ -90,6 +90,8 @@ def h02_worker(S, eager_extras=False):
             @r.actor(name="first", converter=conv, retry_policy=policy)
             async def first(i: int, m: MessageDependency):
                 runs["m1"] += 1
+                if runs["m1"] > 1:
+                    return i        # a redelivery of the same message behaves
                 if extra == "set_result":
                     m.set_result("early")
                 elif extra == "set_exception":
@@ -127,7 +129,9 @@ def h02_worker(S, eager_extras=False):
             execution_timeout=real_timedelta(seconds=1),
             result=P.ResultProperties(id_="res1", ttl=None) if with_result else None,
             retries=P.RetriesProperties(max_amount=N, already_tried=k),
-            delay=P.DelayProperties(defer_by=real_timedelta(hours=1) if recurring else None),
+            # a recurring message that is being delivered carries the slot it was scheduled for
+            delay=P.DelayProperties(defer_by=real_timedelta(hours=1) if recurring else None,
+                                    next_execution_time=(P.datetime.now() - real_timedelta(seconds=1)) if recurring else None),
             timestamp=P.datetime.now(),
         )
         payload = '{"i": 1}'
@@ -135,18 +139,29 @@ def h02_worker(S, eager_extras=False):
             payload = '{"i": "not-a-number"}' if conv is PydanticConverter else '{"i": 1'
         # enqueue bypassing delay computation for recurring jobs: place directly as waiting
         key1 = RoutingKey(topic="first", queue="default", id_="m1")
-        from repid.connections.in_memory.utils import Message
-        w.broker.queues["default"].simple.put_nowait(Message(key1, payload, params))
+        if backend == "mem":
+            from repid.connections.in_memory.utils import Message
+            w.broker.queues["default"].simple.put_nowait(Message(key1, payload, params))
+        else:
+            # straight into the normal list of the fake Redis server (no delay computation for recurring jobs)
+            from repid.connections.redis.utils import mnc, qnc
+            await w.broker.conn.hset(mnc(key1), mapping={"payload": payload, "parameters": params.encode()})
+            await w.broker.conn.lpush(qnc("default", key1.priority), mnc(key1, short=True))
         await Job("second", args={"i": 2}, id_="m2", _connection=w.conn).enqueue()
         w.rec.calls.clear()
+        # the worker stops after the expected number of deliveries: the two messages, plus one when message 1 is
+        # handed back for immediate delivery (eager reject; eager reschedule of a one-shot job)
+        refused = (beh == "eager_retry" and not bool(k < N)) or (extra in ("set_result", "set_exception") and not with_result)
+        back = beh.startswith("eager_") and not refused and (beh == "eager_reject" or (beh == "eager_reschedule" and not recurring))
         worker = Worker(routers=[r], handle_signals=[], _connection=w.conn, graceful_shutdown_time=5.0,
-                        messages_limit=2, tasks_limit=2)
+                        messages_limit=3 if back else 2, tasks_limit=tasks_limit)
+        out["alive_before_stop"] = True
         try:
             await asyncio.wait_for(worker.run(), timeout=30)
             out["returned"] = True
         except asyncio.TimeoutError:
             out["returned"] = False
-        await asyncio.sleep(0.01)
+        await asyncio.sleep(0.01 if backend == "mem" else 0.5)
         out["calls"] = list(w.rec.calls)
         out["places"] = w.places()
         out["result"] = await w.rb.get_bucket("res1")
@@ -157,7 +172,7 @@ def h02_worker(S, eager_extras=False):
     except Deadlock:
         S.check("worker-survives", False, info="deadlock")
         return
-    S.check("worker-survives", out["returned"], info="Worker.run() did not return")
+    S.check("worker-survives", out["returned"] and out["alive_before_stop"], info=f"worker alive before stop: {out.get('alive_before_stop')}, returned: {out['returned']}")
     if not out["returned"]:
         return
     S.cover("beh-" + beh)
@@ -204,18 +219,24 @@ def h02_worker(S, eager_extras=False):
             eager_done = True
             want = {"ack": "ack", "nack": "nack", "reject": "reject", "reschedule": "requeue",
                     "retry": "requeue", "force_retry": "requeue"}[action]
-    S.check("actor-invocations", runs["m1"] == invoked, info=f"runs={runs['m1']} expected={invoked}")
-    S.check("exactly-one-disposition", len(ops1) == 1, info=f"{beh}/{extra}: {ops1} task errors: {out['task_errors']}")
-    if want is not None and len(ops1) == 1:
+    # a message that was handed back for immediate delivery (eager reject; eager reschedule of a one-shot job) is
+    # delivered once more within the run; that second delivery behaves and gets its own single disposition
+    handed_back = eager_done and (beh == "eager_reject" or (beh == "eager_reschedule" and not recurring))
+    deliveries = 2 if handed_back else 1
+    S.check("actor-invocations", runs["m1"] == (invoked if deliveries == 1 else 2), info=f"runs={runs['m1']} expected={invoked} deliveries={deliveries}")
+    S.check("exactly-one-disposition", len(ops1) == deliveries, info=f"{beh}/{extra}: {ops1} task errors: {out['task_errors']}")
+    if handed_back and len(ops1) == 2:
+        S.check("redelivery-gets-its-own-disposition", ops1[1] == ladder(False), info=str(ops1))
+        ops1 = ops1[1:] if False else ops1
+    if want is not None and len(ops1) == deliveries:
         S.check("correct-disposition", ops1[0] == want, info=f"{beh}/{extra}: {ops1[0]} != {want}")
     S.check("code-after-eager-response-not-run", "after-eager" not in cb_log, info=str(cb_log))
     names = place_names(out["places"], "m1")
     S.check("at-most-one-copy", len(names) <= 1, info=str(names))
-    if len(ops1) == 1:
-        exp_place = {"ack": [], "nack": ["dead"], "reject": ["waiting"], "requeue": ["delayed"]}[ops1[0]]
-        if beh == "eager_reschedule" and not recurring and eager_done:
-            exp_place = ["waiting"]     # rescheduling a one-shot message returns it for immediate delivery
-        S.check("final-place-matches-disposition", names == exp_place, info=f"{ops1[0]} -> {names}")
+    if len(ops1) == deliveries:
+        last = ops1[-1]
+        exp_place = {"ack": [], "nack": ["dead"], "reject": ["waiting"], "requeue": ["delayed"]}[last]
+        S.check("final-place-matches-disposition", names == exp_place, info=f"{ops1} -> {names}")
 
 
 HARNESSES = [
@@ -237,5 +258,18 @@ HARNESSES = [
         covers=["beh-" + b for b in BEHAVIOURS] + ["finished-before-timeout", "timed-out"],
         outside=["sync actors (thread pool)", "BaseExceptions other than the eager-response signal", "failures inside broker calls", "cron"],
     ),
+]
+HARNESSES += [
+    Harness(
+        name="H02-worker-redis", scenario=h02_worker, workers=16, budget_s=900,
+        params={"quick": {"eager_extras": False, "backend": "redis"}, "thorough": {"eager_extras": True, "backend": "redis"}},
+        bounds={"as H02-worker": "on the real Redis broker/consumer over the fake server (quick: without the eager x extras product)"},
+        functions=["connections/redis/message_broker.py:RedisMessageBroker.requeue", "connections/redis/message_broker.py:RedisMessageBroker.nack"],
+        covers=["beh-return", "beh-raise", "beh-eager_reject"], stubs=["fake Redis server"]),
+    Harness(
+        name="H02-worker-serial", scenario=h02_worker, workers=16, budget_s=900, tiers=("thorough",),
+        params={"thorough": {"eager_extras": True, "tasks_limit": 1}},
+        bounds={"as H02-worker": "with tasks_limit=1 (the second message waits for the slot of the first)"},
+        covers=["beh-return"]),
 ]
 ASSUMPTIONS = ["in-memory brokers; virtual time; message 1 placed directly in the waiting queue with symbolic retry counters"]
